@@ -83,6 +83,16 @@ CLAIMED.update({
     ),
 })
 
+CLAIMED.update({
+    "C18": (
+        "closed-form (TERM) comparison of the straight-line tool on FoIR with buffer identity kept, must-check rule for read results, closed forms of the library wrappers it uses",
+        "The tool is loop-free Folang over library calls, so its closed form decides the statement for all list files and contents relative to the library specifications: pipeline Split/Filter/Map/Concat/AppendHead/WriteFile in list order, "
+        "section template (title = text after the first space or the name, verbatim fenced content, gen_<base>.go link) written in order into one buffer, read failures reach a panic before any write, constant output name.",
+        "Relies on slice.Map/Filter/Head/Last/Tail (C13) and on Go's strings/filepath/os. The dropped WriteFile result is outside the statement.",
+        "DESIGN.md §3 C18",
+    ),
+})
+
 NOT_APPLICABLE = {
 }
 
